@@ -304,10 +304,10 @@ def _failsafe_construct(element: Optional[etree._Element], constructor: Callable
         return None
     try:
         return constructor(element, **kwargs)
-    except (KeyError, ValueError, model.AASConstraintViolation) as e:
+    except (KeyError, ValueError, TypeError, model.AASConstraintViolation) as e:
         error_message = f"Failed to construct {_element_pretty_identifier(element)} using {constructor.__name__}!"
         if not failsafe:
-            raise (type(e) if isinstance(e, (KeyError, ValueError)) else ValueError)(error_message) from e
+            raise (type(e) if isinstance(e, (KeyError, ValueError, TypeError)) else ValueError)(error_message) from e
         error_type = type(e).__name__
         cause: Optional[BaseException] = e
         while cause is not None:
@@ -1006,8 +1006,8 @@ class AASFromXmlDecoder:
                                     **_kwargs: Any) -> model.SpecificAssetId:
         # semantic_id can't be applied by _amend_abstract_attributes because specificAssetId is immutable
         return object_class(
-            name=_get_text_or_none(element.find(NS_AAS + "name")),
-            value=_get_text_or_none(element.find(NS_AAS + "value")),
+            name=_child_text_mandatory(element, NS_AAS + "name"),
+            value=_child_text_mandatory(element, NS_AAS + "value"),
             external_subject_id=_failsafe_construct(element.find(NS_AAS + "externalSubjectId"),
                                                     cls.construct_external_reference, cls.failsafe),
             semantic_id=_failsafe_construct(element.find(NS_AAS + "semanticId"), cls.construct_reference, cls.failsafe),
